@@ -172,6 +172,20 @@ def file_level_cases():
     yield "unique-names/across-files", {"E010"}, ["module M\nstruct S {}\n", "module M\nstruct S {}\n"]
     yield "unique-names/across-files-kinds", {"E010"}, ["module M::N\ncustom S\n", "module M::N\ninterface S {}\n"]
     yield "inherited-operation/across-files", {"E011"}, ["module M\ninterface A : N::B { op() }\n", "module N\ninterface B { op() }\n"]
+    # same simple name in different modules: anything keyed by the unqualified name goes wrong here
+    good, bad = "module Good\ncompact struct Id { a: int32 }\n", "module Bad\ncompact struct Id { a: float64 }\n"
+    yield "keys/same-name-other-module", {"E006"}, [good, bad, "module M\ncompact struct Key { a: Good::Id, b: Bad::Id }\nstruct U { d: Dictionary<Key, bool> }\n"]
+    yield "keys/same-name-other-module-reversed", {"E006"}, [good, bad, "module M\ncompact struct Key { a: Bad::Id, b: Good::Id }\nstruct U { d: Dictionary<Key, bool> }\n"]
+    yield "keys/same-name-other-module-two-dictionaries", {"E006"}, [good, bad, "module M\nstruct U { d: Dictionary<Good::Id, bool>, e: Dictionary<Bad::Id, bool> }\n"]
+    yield "keys/same-name-nested", {"E006"}, [good, bad, "module M\ncompact struct Id { g: Good::Id, b: Bad::Id }\nstruct U { d: Dictionary<Id, bool> }\n"]
+    yield "ok/keys-same-name-both-legal", set(), [good, bad.replace("float64", "string"), "module M\ncompact struct Key { a: Good::Id, b: Bad::Id }\nstruct U { d: Dictionary<Key, bool> }\n"]
+    yield "inherited-operation/same-name-bases", {"E011"}, ["module A\ninterface I { op() }\n", "module B\ninterface I { other() }\n",
+                                                            "module C\ninterface J : A::I, B::I { other() }\n"]
+    yield "ok/same-name-bases", set(), ["module A\ninterface I { op() }\n", "module B\ninterface I { other() }\n", "module C\ninterface J : A::I, B::I { mine() }\n"]
+    yield "ok/same-name-containment", set(), ["module A\nstruct S { t: B::S }\n", "module B\nstruct S { x: bool }\n"]
+    yield "ok/same-name-enums", set(), ["module A\nenum E : uint8 { X = 1 }\n", "module B\nenum E : uint8 { X = 1, Y = 2 }\nstruct U { a: A::E, b: E }\n"]
+    yield "values/unique-same-name-enums", {"E022"}, ["module A\nenum E : uint8 { X = 1 }\n", "module B\nenum E : uint8 { X = 1, Y = 1 }\n"]
+    yield "tags/unique-same-name-structs", {"E012"}, ["module A\nstruct S { tag(1) a: bool? }\n", "module B\nstruct S { tag(1) a: bool?, tag(1) b: bool? }\n"]
     # accept side of the same shapes
     yield "ok/reopened-module", set(), ["module M\nstruct S {}\n", "module M\nstruct T { s: S }\n"]
     yield "ok/same-name-other-module", set(), ["module M\nstruct S {}\n", "module N\nstruct S { s: M::S }\n"]
